@@ -142,16 +142,37 @@ var c20Templates = []string{
 	"a { ? }\n",
 	"a {\n b { ? }\n}\n?\n",
 	"import ?\n",
+	// templates with an expected block structure (holes restricted to lower-case letters)
+	"a { $(m) = ? }\nb\n",
+	"a {\n c ? }\nb ?\n",
+	"a \"?\\\n?\" x\nb ?\n",
+	"a { b { ? } }\nc\n",
+}
+
+// names of the top-level directives a successful parse of the template must
+// return (stated from the brace structure of the template text)
+var c20TemplateTop = map[int][]string{
+	10: {"a", "b"},
+	11: {"a", "b"},
+	12: {"a", "b"},
+	13: {"a", "c"},
 }
 
 func harness_C20_template() {
 	t := c20Templates[verifParam("template", 0)]
 	holeLen := verifParam("hole", 1)
+	wantTop, structural := c20TemplateTop[verifParam("template", 0)]
 	var src []byte
 	k := 0
 	for i := 0; i < len(t); i++ {
 		if t[i] == '?' {
-			src = append(src, nondetBytes(fmt.Sprintf("hole%d", k), holeLen)...)
+			h := nondetBytes(fmt.Sprintf("hole%d", k), holeLen)
+			if structural {
+				for _, c := range h {
+					verifAssume(c >= 'a' && c <= 'z')
+				}
+			}
+			src = append(src, h...)
 			k++
 		} else {
 			src = append(src, t[i])
@@ -163,6 +184,17 @@ func harness_C20_template() {
 		return
 	}
 	c20CheckTree(nodes, 1)
+	if structural {
+		if len(nodes) != len(wantTop) {
+			verifLog("source", string(src), "top-level nodes", len(nodes), "expected", len(wantTop))
+			verifFail("C20.block-structure")
+		}
+		for i, n := range nodes {
+			if n.Name != wantTop[i] {
+				verifFail("C20.block-structure")
+			}
+		}
+	}
 	verifCover("C20.template-tree")
 }
 
@@ -210,15 +242,20 @@ func c20Equal(a, b []Node) bool {
 	return true
 }
 
-// expressible in the quoted syntax: no backslash (the lexer escapes only
-// quotes), not a lone brace, no macro / environment marker
+// expressible in the quoted syntax: not a lone brace, no macro / environment
+// marker, backslashes only where they survive literally
 func c20Quotable(s string) bool {
 	if s == "{" || s == "}" {
 		return false
 	}
 	for i := 0; i < len(s); i++ {
 		c := s[i]
-		if c == '\\' || c == '$' || c >= 0x80 || c == '\r' {
+		if c == '$' || c >= 0x80 || c == '\r' {
+			return false
+		}
+		// the lexer un-escapes only \": a backslash survives literally unless it
+		// precedes a quote, another backslash or the closing quote
+		if c == '\\' && (i+1 == len(s) || s[i+1] == '"' || s[i+1] == '\\') {
 			return false
 		}
 	}
